@@ -142,6 +142,31 @@ func runC18(cx *Ctx, r *Report) {
 				okLoop = s1 != nil && s2 != nil && perIterationMust([]ssa.Instruction{s1, s2})
 			}
 			r.check(okLoop, "dequeue-every-iteration", "BeginBlock", deq[0].ev.Pos(cx), "every path through the begin blocker's loop body deletes the queue entry being handled", "a path through the begin blocker's loop body does not dequeue the handled request: it would be handled again or never")
+			// the loop drains the whole bucket: its only exit is the iterator running out. The
+			// bucket of a height is looked at in one block only, so whatever a break or an
+			// early return leaves behind is never served.
+			if top != nil {
+				s1 := liftTo(deq[0].ev, top)
+				h := loopHeaderOf(s1.Block())
+				early := ""
+				if h != nil {
+					inL := func(b *ssa.BasicBlock) bool { return b == h || (h.Dominates(b) && blockReaches(b, h)) }
+					for _, b := range top.Fn.Blocks {
+						if !inL(b) || b == h {
+							continue
+						}
+						for _, sc := range b.Succs {
+							if !inL(sc) {
+								early = cx.P.Pos(condPos(nil, b))
+							}
+						}
+						if _, isRet := b.Instrs[len(b.Instrs)-1].(*ssa.Return); isRet {
+							early = cx.P.Pos(condPos(nil, b))
+						}
+					}
+				}
+				r.check(h != nil && early == "", "drain-complete", "BeginBlock", deq[0].ev.Pos(cx), "the loop over the due requests is left only when the iterator is exhausted", "the begin blocker leaves the loop over the due requests early ("+early+"): the remaining requests of that height are never looked at again (only the previous height's bucket is scanned) - they get no result and stay queued forever")
+			}
 			k0 := deq[0].ev.Args[0].LooseString()
 			okKey := strings.Contains(k0, "(sdk.Context.BlockHeight() - 1)") && strings.Contains(k0, "random/types.GenerateRequestID(") && deq[1].ev.Args[0].LooseString() == k0 &&
 				strings.Contains(iter[0].ev.Args[len(iter[0].ev.Args)-1].LooseString(), "(sdk.Context.BlockHeight() - 1)")
